@@ -120,9 +120,10 @@ Definition s_keypress (st : sstate) (force : bool) (cmd : kcmd) (ko : kobs) : ss
     | KOther => (st1, KRes fw false)                     (* return key *)
     end.
 
-(* Scrollable.mouse_event: always forwarded; returns (row given to the wrapped widget, its answer) *)
-Definition s_mouse (st : sstate) (row : Z) (child_handled : bool) : Z * bool :=
-  (row + trim_top st, child_handled).
+(* Scrollable.mouse_event: forwarded whenever the wrapped widget has a mouse_event method
+   (row += self._trim_top); returns (row given to the wrapped widget, its answer), else False *)
+Definition s_mouse (st : sstate) (has_mouse : bool) (row : Z) (child_handled : bool) : Z * bool :=
+  if has_mouse then (row + trim_top st, child_handled) else (0, false).
 
 (* Scrollable.set_scrollpos *)
 Definition s_set_scrollpos (st : sstate) (p : Z) : sstate :=
@@ -198,8 +199,8 @@ Definition b_render (bs : bstate) (maxcol maxrow : Z) (ob : bobs)
     end.
 
 (* ScrollBar.mouse_event: wheel scrolling only when the wrapped widget did not handle the event *)
-Definition b_mouse (bs : bstate) (button row : Z) (child_handled : bool) : bstate * (Z * bool) :=
-  let '(crow, handled) := s_mouse (inner bs) row child_handled in
+Definition b_mouse (bs : bstate) (has_mouse : bool) (button row : Z) (child_handled : bool) : bstate * (Z * bool) :=
+  let '(crow, handled) := s_mouse (inner bs) has_mouse row child_handled in
   let st := inner bs in
   if negb handled && (button =? 4) then
     (BState (s_set_scrollpos st (Z.max (trim_top st - 1) 0)) (bar_width_raw bs) (ow_size bs), (crow, true))
@@ -212,7 +213,7 @@ Definition b_mouse (bs : bstate) (button row : Z) (child_handled : bool) : bstat
 Inductive op :=
   | ORender (maxcol maxrow : Z) (ob : bobs)
   | OKey (maxcol : Z) (cmd : kcmd) (ko : kobs)
-  | OMouse (maxcol button row : Z) (child_handled : bool)
+  | OMouse (maxcol button row : Z) (has_mouse child_handled : bool)
   | OSetPos (p : Z).
 
 (* a widget under test: bare Scrollable (has_bar = false: only [inner] is used) or ScrollBar(Scrollable) *)
@@ -261,15 +262,16 @@ Definition step (w : wstate) (o : op) : wstate * list Z :=
       (with_inner w st',
        [2; enc_bool (kr_forwarded r); (if kr_forwarded r then child_w (fixed_child w) w_for_child else 0);
         enc_bool (kr_none r)] ++ enc_state st')
-  | OMouse maxcol button row ch =>
+  | OMouse maxcol button row hm ch =>
       let w_for_child := if has_bar w then fst (ow_size (bs w)) else maxcol in
+      let cw := if hm then child_w (fixed_child w) w_for_child else 0 in
       if has_bar w then
-        let '(bs', (crow, ret)) := b_mouse (bs w) button row ch in
+        let '(bs', (crow, ret)) := b_mouse (bs w) hm button row ch in
         (WState true (force w) (fixed_child w) bs',
-         [3; crow; child_w (fixed_child w) w_for_child; enc_bool ret] ++ enc_state (inner bs'))
+         [3; crow; cw; enc_bool ret] ++ enc_state (inner bs'))
       else
-        let '(crow, ret) := s_mouse (inner (bs w)) row ch in
-        (w, [3; crow; child_w (fixed_child w) w_for_child; enc_bool ret] ++ enc_state (inner (bs w)))
+        let '(crow, ret) := s_mouse (inner (bs w)) hm row ch in
+        (w, [3; crow; cw; enc_bool ret] ++ enc_state (inner (bs w)))
   | OSetPos p =>
       let st' := s_set_scrollpos (inner (bs w)) p in
       (with_inner w st', [4] ++ enc_state st')
@@ -285,7 +287,7 @@ Fixpoint run (w : wstate) (ops : list op) : list Z :=
    case = has_bar width force fixed op*
    op   = 1 maxcol maxrow rows_full c_cols c_rows cursor selectable rows_w
         | 2 maxcol cmd has_gcc gcc handled retcmd
-        | 3 maxcol button row handled
+        | 3 maxcol button row has_mouse handled
         | 4 p
    cursor/gcc = 0 | 1 col row                                                              *)
 Definition dec_coords (l : list Z) : option (coords * list Z) :=
@@ -314,7 +316,7 @@ Definition dec_op (l : list Z) : option (op * list Z) :=
       | Some (g, h :: rc :: r') => Some (OKey maxcol (dec_cmd cmd) (KObs (zb hg) g (zb h) (dec_cmd rc)), r')
       | _ => None
       end
-  | 3 :: maxcol :: b :: row :: h :: r => Some (OMouse maxcol b row (zb h), r)
+  | 3 :: maxcol :: b :: row :: hm :: h :: r => Some (OMouse maxcol b row (zb hm) (zb h), r)
   | 4 :: p :: r => Some (OSetPos p, r)
   | _ => None
   end.
